@@ -6,6 +6,7 @@ mod dfs;
 mod flags;
 mod hball;
 mod probe;
+mod split;
 mod util;
 mod visit;
 
@@ -59,6 +60,7 @@ fn main() {
         "probe" => probe::run(&mode),
         "cli" => cli::run(seed, count, maxn, &mut out),
         "visit" => visit::run(seed, count, maxn, &mode, &mut out),
+        "split" => split::run(seed, count, maxn, &mode, &mut out),
         other => {
             eprintln!("unknown channel {other}");
             std::process::exit(2);
